@@ -841,6 +841,27 @@ func (in *Interp) doCopy(dst, src SliceV) *Term {
 		in.store(dst.base, &ArrayV{e})
 		return n
 	}
+	// non-scalar elements (e.g. a slice of slices) cannot be merged with ite: concretise the geometry
+	scalarElems := true
+	for _, x := range sa.e {
+		if _, ok := x.(*Term); !ok {
+			scalarElems = false
+			break
+		}
+	}
+	if !scalarElems {
+		nn := in.constU(n, "copy length")
+		do := in.constU(dst.off, "copy destination offset")
+		so := in.constU(src.off, "copy source offset")
+		sa = in.backing(src)
+		tmp := make([]Value, nn)
+		copy(tmp, sa.e[so:so+nn])
+		for i := uint64(0); i < nn; i++ {
+			e[do+i] = tmp[i]
+		}
+		in.store(dst.base, &ArrayV{e})
+		return ts.BV(64, nn)
+	}
 	// symbolic: for each destination cell j: if do <= j < do+n then src[so + (j-do)] else old
 	for j := range e {
 		jj := ts.BV(64, uint64(j))
@@ -982,9 +1003,10 @@ func (in *Interp) run(fr *Frame) Value {
 	var prev *ssa.BasicBlock
 	var phiOverride map[*ssa.Phi]Value
 	b := fn.Blocks[0]
+	visits := map[*ssa.BasicBlock]int{}
 	for {
-		in.visits[b]++
-		if in.visits[b] > in.p.unwind {
+		visits[b]++
+		if visits[b] > in.p.unwind {
 			in.p.Inconclusive(fmt.Sprintf("unwinding bound %d reached at %s block %d", in.p.unwind, fn.String(), b.Index))
 		}
 		var next *ssa.BasicBlock
